@@ -31,11 +31,14 @@ _current_loop: VLoop | None = None
 _real_time = _time_mod.time
 
 
+TIME_BASE = BASE_TIME
+
+
 def _virtual_time() -> float:
     lp = _current_loop
     if lp is None:
-        return BASE_TIME
-    return BASE_TIME + lp._vtime
+        return TIME_BASE
+    return TIME_BASE + lp._vtime
 
 
 class _VDatetime(_real_datetime):
@@ -327,3 +330,90 @@ class DictWorld(World):
 
 def collect_garbage() -> None:
     gc.collect()
+
+
+# ---------------------------------------------------------------------------
+# maildir
+
+_scratch_n = 0
+
+
+def scratch_root() -> str:
+    import tempfile
+    global _scratch_n
+    base = os.environ.get('VERIF_SCRATCH')
+    if not base:
+        base = '/dev/shm' if os.path.isdir('/dev/shm') else None
+    _scratch_n += 1
+    return tempfile.mkdtemp(prefix=f'verif-{os.getpid()}-{_scratch_n}-',
+                            dir=base)
+
+
+class MaildirWorld(World):
+    """Maildir backend built by hand with the asyncio subsystem, on a private
+    directory nested inside a scratch root, always under the E6 jail."""
+    kind = 'maildir'
+
+    def __init__(self, *, layout: str = '++', users=None, seed: int = 0,
+                 root: str | None = None, reuse: bool = False,
+                 time_offset: float = 0.0, tmp_other_fs: bool = False,
+                 bad_command_limit: int | None = 5) -> None:
+        super().__init__(seed)
+        from . import fsjail
+        import tempfile
+        from pymap.backend.maildir import MaildirBackend, Config, Login, \
+            Identity
+        from pymap.concurrent import Subsystem
+        from pymap.imap import IMAPServer
+        from pymap.sieve.manage import ManageSieveServer
+        from pymap.user import UserMetadata
+        global TIME_BASE
+        self.own_root = root is None
+        self.root = root or scratch_root()
+        self.base_dir = os.path.join(self.root, 'nest', 'a', 'b', 'base')
+        self.tmp_dir = os.path.join(self.root, 'tmp')
+        if not reuse:
+            os.makedirs(self.base_dir, exist_ok=True)
+            os.makedirs(self.tmp_dir, exist_ok=True)
+        self._saved_tempdir = tempfile.tempdir
+        tempfile.tempdir = self.tmp_dir
+        # maildir compares the clock with real file mtimes
+        self._saved_time_base = TIME_BASE
+        TIME_BASE = _real_time() + time_offset
+        self.jail = fsjail.Jail(self.root)
+        self.jail.__enter__()
+        self.tmp_other_fs = tmp_other_fs
+        users = users if users is not None else {'alice': ('pw', ())}
+        self.users = users
+        cfg = Config(Args(), base_dir=self.base_dir, layout=layout, colon=None,
+                     host=None, port=143, subsystem=Subsystem.for_asyncio(),
+                     cpu_subsystem=Subsystem.for_asyncio(),
+                     hash_context=_hash_context(), invalid_user_sleep=0.0,
+                     tls_enabled=False, bad_command_limit=bad_command_limit)
+        self.config = cfg
+        login = Login(cfg)
+        self.backend = MaildirBackend(login, cfg)
+        if not reuse:
+            for name, (pw, roles) in users.items():
+                h = _hash_context().hash(cfg.password_prep(pw))
+                ident = Identity(cfg, login.tokens, name, None, {'admin'})
+                self.loop.run_coro(ident.set(UserMetadata(
+                    cfg, name, password=h, roles=frozenset(roles))),
+                    horizon=30.0)
+        self.imap_server = IMAPServer(login, cfg)
+        self.sieve_server = ManageSieveServer(login, cfg)
+
+    def user_dir(self, user: str) -> str:
+        return os.path.join(self.base_dir, user)
+
+    def _teardown(self) -> None:
+        global TIME_BASE
+        import tempfile
+        import shutil
+        from . import fsjail
+        self.jail.__exit__()
+        tempfile.tempdir = self._saved_tempdir
+        TIME_BASE = self._saved_time_base
+        if self.own_root:
+            with fsjail.unjailed():
+                shutil.rmtree(self.root, ignore_errors=True)
